@@ -411,8 +411,12 @@ func (r *e1Run) tryPres(o *e1Obl) bool {
 	fa := r.A.fa(o.Fn)
 	var cands []*Pre
 	var lins []*Lin
+	var adopted []*Lin // preconditions adopted earlier in this pass hold here too
 	for _, p := range ct.Pres {
 		if p.Adopted {
+			if l := r.preLin(fa, p); l != nil {
+				adopted = append(adopted, l)
+			}
 			continue
 		}
 		if p.Kind == "len>=c" && o.Kind != "INDEX" && o.Kind != "SLICE" && o.Kind != "PRE" {
@@ -427,7 +431,7 @@ func (r *e1Run) tryPres(o *e1Obl) bool {
 		return false
 	}
 	proves := func(use []bool) bool {
-		as := append([]*Lin{}, o.Assume...)
+		as := append(append([]*Lin{}, o.Assume...), adopted...)
 		for i, u := range use {
 			if u {
 				as = append(as, lins[i])
